@@ -60,6 +60,9 @@ type FnTrans struct {
 	loops    map[int]*loopInfo // by header index
 	written  map[int]map[string]bool
 	loopMods map[int][]string // header index -> components to havoc (from scan pass)
+	keepNext *keptSet // kept set of the next havocAll (set by havocHeapKeeping)
+	loopKept map[int]*keptSet  // header index -> what every whole-heap havoc inside the loop preserves
+	havocEv  map[int]*keptSet  // block index -> what the whole-heap havocs in the block preserve (scan pass)
 	scan     bool
 
 	cur        *Heap
@@ -85,6 +88,7 @@ type FnTrans struct {
 	curCall    *ssa.CallCommon
 	binds      map[string]Val
 	pendingBind string
+	partial     bool
 	refines     *FuncContract // function-type contract this closure must refine
 	inlineDepth int
 	inlineCtr   map[string]map[string]int // obligation counters of inlined callees (unique names)
@@ -106,6 +110,13 @@ func (tr *FnTrans) obName(class string, label string) string {
 }
 
 func (tr *FnTrans) oblig(class, label, cond, desc string) {
+	if tr.partial {
+		// partial contract: safety obligations and callee preconditions are
+		// not checked (listed as an assumption); the name is still consumed
+		// so that numbering stays stable
+		_ = tr.obName(class, label)
+		return
+	}
 	tr.vc.oblig(tr.obName(class, label), class, sImp(tr.curReach, cond), desc)
 }
 
@@ -274,6 +285,14 @@ func (tr *FnTrans) val(v ssa.Value) Val {
 			name := qsym("glob$" + shortPkg(x.Pkg.Pkg.Path()) + "." + x.Name())
 			tr.vc.declConst(name, sortInt)
 			tr.vc.decl("globneg:"+name, "(assert (< "+name+" 0))")
+			return Val{K: KRef, T: name, Typ: x.Type()}
+		}
+		if _, isArr := et.Underlying().(*types.Array); isArr {
+			// package-level array: an array object of its own (its elements
+			// are unknown unless a contract says something about them)
+			name := qsym("globarr$" + shortPkg(x.Pkg.Pkg.Path()) + "." + x.Name())
+			tr.vc.declConst(name, sortInt)
+			tr.vc.decl("globarr:"+name, "(assert (and (< 0 "+name+") (< "+name+" "+tr.entryAlloc+")))")
 			return Val{K: KRef, T: name, Typ: x.Type()}
 		}
 		comp := tr.vc.globalComp(shortPkg(x.Pkg.Pkg.Path()), x.Name(), et)
@@ -465,6 +484,73 @@ func (tr *FnTrans) havocAll() {
 	na := tr.vc.hget(tr.cur, compAlloc)
 	tr.fact(sLe(oldAlloc, na))
 	tr.markAllWritten()
+	if tr.keepNext != nil {
+		tr.noteHavoc(tr.keepNext)
+		tr.keepNext = nil
+	} else {
+		tr.noteHavoc(&keptSet{ghostMod: map[string]bool{}, comps: map[string]bool{}})
+	}
+}
+
+// keptSet describes what a whole-heap havoc preserves: all ghost components
+// except ghostMod (if ghosts) and the listed heap components.
+type keptSet struct {
+	ghosts   bool
+	ghostMod map[string]bool
+	comps    map[string]bool
+}
+
+func (k *keptSet) meet(o *keptSet) *keptSet {
+	r := &keptSet{ghosts: k.ghosts && o.ghosts, ghostMod: map[string]bool{}, comps: map[string]bool{}}
+	for c := range k.ghostMod {
+		r.ghostMod[c] = true
+	}
+	for c := range o.ghostMod {
+		r.ghostMod[c] = true
+	}
+	for c := range k.comps {
+		if o.comps[c] {
+			r.comps[c] = true
+		}
+	}
+	return r
+}
+
+func (tr *FnTrans) noteHavoc(k *keptSet) {
+	if tr.havocEv == nil {
+		tr.havocEv = map[int]*keptSet{}
+	}
+	b := tr.curBlock.Index
+	if old, ok := tr.havocEv[b]; ok {
+		tr.havocEv[b] = old.meet(k)
+	} else {
+		tr.havocEv[b] = k
+	}
+}
+
+// havocHeapKeeping: whole-heap havoc that preserves the ghost state (except
+// the listed ghost components, which the caller havocs itself) and the
+// excepted heap components.
+func (tr *FnTrans) havocHeapKeeping(excepted map[string]bool, ghostMod map[string]bool) {
+	vc := tr.vc
+	keep := map[string]string{}
+	for c := range vc.compSort {
+		if strings.HasPrefix(c, "G$") || excepted[c] {
+			keep[c] = vc.hget(tr.cur, c)
+		}
+	}
+	ks := &keptSet{ghosts: true, ghostMod: map[string]bool{}, comps: map[string]bool{}}
+	for c := range ghostMod {
+		ks.ghostMod[c] = true
+	}
+	for c := range excepted {
+		ks.comps[c] = true
+	}
+	tr.keepNext = ks
+	tr.havocAll()
+	for c, v := range keep {
+		tr.cur.m[c] = v
+	}
 }
 
 func (tr *FnTrans) markAllWritten() {
@@ -492,12 +578,16 @@ type vcResult struct {
 
 func (w *World) translate(fn *ssa.Function, fc *FuncContract) (vc *VC, err error) {
 	var seed map[string]string
+	var loopKeptSeed map[int]*keptSet
 	run := func(scan bool, mods map[int][]string) (tr *FnTrans, err error) {
 		vc := newVC(w, fnDisplayName(fn))
 		for c, s := range seed {
 			vc.compSort[c] = s
 		}
 		tr = &FnTrans{vc: vc, w: w, fn: fn, fc: fc, name: fnDisplayName(fn), scan: scan, loopMods: mods}
+		if !scan {
+			tr.loopKept = loopKeptSeed
+		}
 		if fn.Pkg != nil {
 			tr.pkg = fn.Pkg.Pkg
 		} else if fn.Parent() != nil && fn.Parent().Pkg != nil {
@@ -535,6 +625,23 @@ func (w *World) translate(fn *ssa.Function, fc *FuncContract) (vc *VC, err error
 		sort.Strings(cs)
 		mods[h] = cs
 	}
+	kept := map[int]*keptSet{}
+	for h, li := range t1.loops {
+		var k *keptSet
+		for b := range li.blocks {
+			if ev, ok := t1.havocEv[b]; ok {
+				if k == nil {
+					k = ev
+				} else {
+					k = k.meet(ev)
+				}
+			}
+		}
+		if k != nil {
+			kept[h] = k
+		}
+	}
+	loopKeptSeed = kept
 	t2, err := run(false, mods)
 	if err != nil {
 		return nil, err
@@ -560,6 +667,10 @@ func (tr *FnTrans) run() {
 	tr.atUsed = map[int]bool{}
 	tr.selStates = map[ssa.Value][]Val{}
 	tr.analyze()
+	if tr.fc != nil && tr.fc.Partial {
+		tr.partial = true
+		tr.vc.assume("PARTIAL contract of " + tr.name + ": only its stated assertions, invariants and postconditions are checked; run-time safety, callee preconditions and lock discipline inside it are NOT checked (bounded stand-in, not counted as proved)")
+	}
 	if tr.fc != nil {
 		tr.wrapping = tr.fc.Wrapping
 		if len(tr.fc.Calls) > 0 {
@@ -817,6 +928,27 @@ func (tr *FnTrans) globalFacts() {
 		return
 	}
 	for path, cf := range tr.w.cfiles {
+		for _, a := range cf.Axioms {
+			// declared axioms (about uninterpreted functions): assumptions,
+			// listed in the evidence
+			ec := &evalCtx{vc: tr.vc, env: map[string]Val{}, heap: tr.cur, pkg: tr.w.tpkgs[path]}
+			ok := func() (ok bool) {
+				defer func() {
+					if r := recover(); r != nil {
+						if _, isVC := r.(vcError); isVC {
+							ok = false
+							return
+						}
+						panic(r)
+					}
+				}()
+				tr.vc.fact(ec.evalBool(a.E), "axiom "+a.Label)
+				return true
+			}()
+			if ok {
+				tr.vc.assume("declared axiom (unchecked): " + shortPkg(path) + " [" + a.Label + "] " + a.Text)
+			}
+		}
 		for _, g := range cf.Globals {
 			ec := &evalCtx{vc: tr.vc, env: map[string]Val{}, heap: tr.cur, pkg: tr.w.tpkgs[path]}
 			tr.vc.fact(ec.evalBool(g.E), "global "+g.Name)
@@ -976,7 +1108,35 @@ func (tr *FnTrans) loopHeader(li *loopInfo, phiEntry map[*ssa.Phi]Val) {
 			}
 		}
 		if all {
+			// what every whole-heap havoc inside the loop preserves is also
+			// preserved at the loop head (unless the loop writes it otherwise)
+			explicit := map[string]bool{}
+			for _, c := range tr.loopMods[b.Index] {
+				explicit[c] = true
+			}
+			keepv := map[string]string{}
+			if k := tr.loopKept[b.Index]; k != nil {
+				for c := range vc.compSort {
+					if explicit[c] {
+						continue
+					}
+					if (k.ghosts && strings.HasPrefix(c, "G$") && !k.ghostMod[c]) || k.comps[c] {
+						keepv[c] = vc.hget(tr.cur, c)
+					}
+				}
+			}
 			tr.havocAll()
+			for c, v := range keepv {
+				tr.cur.m[c] = v
+			}
+			// explicitly written ghost / excepted components are forgotten
+			for _, c := range tr.loopMods[b.Index] {
+				if strings.HasPrefix(c, "G$") {
+					if _, ok := vc.compSort[c]; ok {
+						vc.hfresh(tr.cur, c)
+					}
+				}
+			}
 			// function-private components survive havocAll; those the loop
 			// body writes must still be forgotten at the loop head
 			for _, c := range tr.loopMods[b.Index] {
@@ -2009,6 +2169,9 @@ func (tr *FnTrans) pureBody() {
 func callSimpleName(c *ssa.CallCommon) string {
 	if c.IsInvoke() {
 		return c.Method.Name()
+	}
+	if b, ok := c.Value.(*ssa.Builtin); ok {
+		return b.Name() // delete, append, copy, ...
 	}
 	if callee := c.StaticCallee(); callee != nil {
 		return callee.Name()
